@@ -131,9 +131,15 @@ class C14(CFGProp):
         self._parse(ctx, m, LLOneParser(g), r, [(w, w in ref["lang"]) for w in W4], NotParsableException)
         # the same grammar given as a list that names every production twice, and what eliminate_unit_productions()
         # makes of a grammar without unit productions (the same grammar)
-        variants = [("productions listed twice", lambda: O.build_cfg(case, "plain", "list2"))]
+        variants = [("productions listed twice", lambda: O.build_cfg(case, "plain", "list2")),
+                    ("productions listed twice (tuple)", lambda: O.build_cfg(case, "plain", "tuple2"))]
         if not any(len(b) == 1 and b[0] < case[0] for _, b in case[2]):
             variants.append(("eliminate_unit_productions()", lambda: O.build_cfg(case, "plain", "prods").eliminate_unit_productions()))
+        if len(case[2]) == 2:
+            # (once per two-production grammar; grammars with useless symbols, hence all smaller ones, are skipped)
+            # the grammar without productions also exists as CFG() (no start symbol): nothing can be parsed
+            bare = LLOneParser(m.CFG())
+            self._parse(ctx, m, bare, r, [(w, False) for w in W4[:7]], NotParsableException, what="CFG()")
         for what, build in variants:
             g2 = ctx.call(build)
             if not ctx.returns(g2, "C14.build", what=what):
